@@ -101,8 +101,12 @@ fn derive_add<V: Serialize>(r: ReadCtx<V, A>, actor: A, t: &mut Out) -> AddCtx<A
     t.call("ctx.derive_add", &[rs, actor.to_string(), sx(&ctx)]);
     ctx
 }
-fn derive_rm<V: Serialize>(r: ReadCtx<V, A>, t: &mut Out) -> RmCtx<A> {
+fn derive_rm<V: Serialize + Clone>(r: ReadCtx<V, A>, t: &mut Out) -> RmCtx<A> {
     let rs = sx(&r);
+    // ReadCtx::split keeps the value and both clocks
+    let copy = ReadCtx { add_clock: r.add_clock.clone(), rm_clock: r.rm_clock.clone(), val: r.val.clone() };
+    let (v, bare) = copy.split();
+    t.call("ctx.split", &[rs.clone(), sx(&v), sx(&bare)]);
     let ctx = r.derive_rm_ctx();
     t.call("ctx.derive_rm", &[rs, sx(&ctx)]);
     ctx
@@ -1485,6 +1489,14 @@ impl Sut for MR {
         let hs = r.hashes();
         let vals: Vec<&Vec<u8>> = r.values().collect();
         t.call("merkle.read", &[sx(self), sx(&hs), sx(&vals)]);
+        // the Content view of the heads: hashes_and_nodes / nodes / values / is_empty
+        {
+            let c = self.read();
+            let hn: Vec<(merkle_reg::Hash, merkle_reg::Node<Vec<u8>>)> = c.hashes_and_nodes().map(|(h, n)| (h, n.clone())).collect();
+            let ns: Vec<merkle_reg::Node<Vec<u8>>> = c.nodes().cloned().collect();
+            let vs: Vec<Vec<u8>> = c.values().cloned().collect();
+            t.call("merkle.content", &[sx(self), sx(&hn), sx(&ns), sx(&vs), c.is_empty().to_string()]);
+        }
         t.call("merkle.num_nodes", &[sx(self), self.num_nodes().to_string()]);
         t.call("merkle.num_orphans", &[sx(self), self.num_orphans().to_string()]);
         let all: Vec<merkle_reg::Hash> = self.all_nodes().map(|n| n.hash()).collect();
